@@ -21,7 +21,8 @@ for mp in sorted(glob.glob(os.path.join(HERE, 'seeded', '*', 'meta.json'))):
     clauses = sorted(set(c for v in chk.values() for c in v.get('clauses_reported', [])))[:4]
     rows.append((name, title[:110], 'yes' if d.get('repo_tests_pass', True) else 'NO',
                  '%s→%s' % (d.get('demo_exit_unmodified'), d.get('demo_exit_patched')),
-                 'caught' if d.get('caught') else ('caught on the tree before fix D37 (harmless after it)' if d.get('caught_before_fix_D37') else 'MISSED'),
+                 'caught' if d.get('caught') else ('caught on the tree before fix D37 (harmless after it)' if d.get('caught_before_fix_D37') else
+                                                  ('not judged: outside the statement (see meta.json note)' if d.get('outside_statement') else 'MISSED')),
                  'missed at first; check strengthened' if first_miss and (d.get('caught') or d.get('caught_before_fix_D37')) else '',
                  ', '.join(clauses)))
 out = ['| change | mechanism (the sub-agent\'s words) | repo tests pass | demo exit clean→patched | quick check | note | clauses that fired |',
@@ -29,8 +30,9 @@ out = ['| change | mechanism (the sub-agent\'s words) | repo tests pass | demo e
 for r in rows:
     out.append('| ' + ' | '.join(r) + ' |')
 caught = sum(1 for r in rows if r[4].startswith('caught'))
+outside = sum(1 for r in rows if r[4].startswith('not judged'))
 out.append('')
-out.append('%d seeded changes kept, %d caught by the quick tier of the property\'s own check; %d of them were missed at first and are caught after strengthening.' % (len(rows), caught, sum(1 for r in rows if r[5])))
+out.append('%d seeded changes kept, %d caught by the quick tier of the property\'s own check (one of them, C13-r8-2, by C11\'s: it needs a region mask); %d of them were missed at first and are caught after strengthening; %d are not violations of the statement as written / lie outside its quantifier and are not judged (notes in their meta.json).' % (len(rows), caught, sum(1 for r in rows if r[5]), outside))
 txt = '\n'.join(out)
 p = os.path.join(HERE, 'DESIGN.md')
 s = open(p).read()
